@@ -97,3 +97,81 @@ def genC01 (cfg : GenCfg) : G Stmt := do
   pure (.mk ps)
 
 end Drv
+
+namespace Drv
+open IGVerif
+
+structure NestCfg where
+  depth : Nat := 2
+  pairs : Bool := false
+  combos : Bool := true
+  nestedAnn : Bool := true
+  maxSimple : Nat := 4
+  exprDepth : Nat := 2
+  propCombos : Bool := false     -- nested-statement combinations on property symbols (L7)
+  deriving Repr
+
+def distinctSyms (k : Nat) (pool : List Sym) : GS (List Sym) := do
+  let sh ← liftG (shuffle pool)
+  pure (sh.take k)
+
+mutual
+partial def genStmtN (cfg : NestCfg) (depth : Nat) (allowPairs : Bool) (nsimple : Option Nat) : GS Stmt := do
+  let k ← match nsimple with | some k => pure k | none => liftG (range 1 cfg.maxSimple)
+  let syms ← distinctSyms k Sym.simples
+  let mut parts : List Part := []
+  for sym in syms do
+    let d ← liftG (range 0 cfg.exprDepth)
+    let e ← genExpr { shared := false, chains := true } d
+    parts := .ann { sym := sym } true e :: parts
+  if depth > 0 then
+    let m ← liftG (range 0 2)
+    for _ in [0:m] do
+      let sym ← liftG (pick Sym.nestables)
+      let r ← liftG (below 100)
+      if r < 60 || !cfg.combos then
+        let anno ← if cfg.nestedAnn then liftG (pick [none, none, some "ctx=y"]) else pure none
+        let inner ← genStmtN cfg (depth - 1) false none
+        parts := .nested { sym := sym, anno := anno.map String.toList } inner :: parts
+      else if !sym.isProperty || cfg.propCombos then
+        let n ← liftG (range 2 3)
+        let t ← genNTree cfg sym (depth - 1) n
+        parts := .ncomb { sym := sym } t :: parts
+  if allowPairs && cfg.pairs then
+    let n ← liftG (range 2 3)
+    parts := .pairs (← genGTree cfg n) :: parts
+  let shuffled ← liftG (shuffle parts)
+  -- fillers
+  let mut out : List Part := []
+  for p in shuffled do
+    if (← liftG (chance 3 10)) then
+      out := (← genFiller) :: out
+    out := p :: out
+  pure (.mk out.reverse)
+partial def genNTree (cfg : NestCfg) (sym : Sym) (depth : Nat) (n : Nat) : GS NTree := do
+  if n ≤ 1 then
+    let k ← liftG (range 1 2)
+    pure (.one { sym := sym } (← genStmtN cfg depth false (some k)))
+  else
+    let k ← liftG (range 1 (n - 1))
+    pure (.op (← liftG (pick ops3)) (← genNTree cfg sym depth k) (← genNTree cfg sym depth (n - k)))
+partial def genGTree (cfg : NestCfg) (n : Nat) : GS GTree := do
+  if n ≤ 1 then
+    let k ← liftG (range 1 3)
+    let syms ← distinctSyms k Sym.simples
+    let mut parts : List Part := []
+    for sym in syms do
+      let d ← liftG (range 0 1)
+      let e ← genExpr { shared := false, chains := false } d
+      parts := .ann { sym := sym } true e :: parts
+    pure (.grp (.mk parts.reverse))
+  else
+    let k ← liftG (range 1 (n - 1))
+    pure (.op (← liftG (pick ops3)) (← genGTree cfg k) (← genGTree cfg (n - k)))
+end
+
+def genNested (cfg : NestCfg) : G Stmt := do
+  let (s, _) ← (genStmtN cfg cfg.depth cfg.pairs none).run 0
+  pure s
+
+end Drv
